@@ -407,6 +407,24 @@ pub fn run_cfg(w: &mut World, bs: &Base, c: &Cfg, cx: &mut Cx) {
                     cx.check("epoch.total_is_forwarded_plus_rolled_over", tot4 == got + e2_avail, || format!("epoch 4 total {} but the distributor received {} and epoch 2, which left the window, had {} available (epoch 3 total {})", tot4, got, e2_avail, tot3));
                     let e2_after: u128 = epoch_of(w, hub, 2).unwrap().available.iter().map(|a| a.amount.u128()).sum();
                     cx.check("epoch.expired_epoch_is_emptied", e2_after == 0, || format!("epoch 2 left the grace window but still has {} available", e2_after));
+                    // ---- and a fifth one that does carry fees (somebody pays the collector directly) while the epoch leaving the
+                    // window, epoch 3, is in most configurations an epoch that never had any: the fees must still be in the total
+                    w.advance(DAY_NS, 1);
+                    w.mint_native(&hub.collector, 777_777, WHALE);
+                    let e3_avail: u128 = epoch_of(w, hub, 3).unwrap().available.iter().map(|a| a.amount.u128()).sum();
+                    let (dist0, dao0) = (w.native_balance(&hub.distributor, WHALE), w.native_balance(DAO, WHALE));
+                    if w.exec(MALLORY, &hub.distributor, &DistExec::NewEpoch {}, &[]).is_ok() {
+                        cx.count("newepoch:fifth");
+                        if e3_empty {
+                            cx.count("newepoch:fifth_with_fees_while_an_epoch_without_fees_expires");
+                        }
+                        let got = w.native_balance(&hub.distributor, WHALE) - dist0;
+                        let dao_got = w.native_balance(DAO, WHALE) - dao0;
+                        let tot5: u128 = epoch_of(w, hub, 5).unwrap().total.iter().map(|a| a.amount.u128()).sum();
+                        cx.check("epoch.total_is_forwarded_plus_rolled_over", tot5 == got + e3_avail && got + dao_got >= 777_777, || {
+                            format!("epoch 5 total {} but the distributor received {} (DAO {}) of at least 777777 paid in, and epoch 3, which left the window, had {} available (its total was {})", tot5, got, dao_got, e3_avail, tot3)
+                        });
+                    }
                 }
             }
         }
@@ -500,7 +518,7 @@ pub fn run(tier: &str, seed: u64) -> i32 {
     );
     ev.validated = ev.counters.get("newepoch:ok").cloned().unwrap_or(0);
     if ev.violations.is_empty() {
-        for c in ["newepoch:ok", "newepoch:reverted", "collect:nonzero", "collect:vault_nonzero", "aggregate:swapped", "take_rate:nonzero"] {
+        for c in ["newepoch:ok", "newepoch:reverted", "collect:nonzero", "collect:vault_nonzero", "aggregate:swapped", "take_rate:nonzero", "newepoch:fourth_after_an_epoch_without_fees", "newepoch:fifth_with_fees_while_an_epoch_without_fees_expires"] {
             ev.require_counter(c, 1);
         }
     }
